@@ -104,6 +104,16 @@ func Parse(b []byte) (Msg, error) {
 	return m, nil
 }
 
+// ErrUndecodable is what Enc.Unmarshal returns for messages produced by Undecodable.
+var ErrUndecodable = errors.New("payload: message cannot be decoded")
+
+// Undecodable returns a message of n+2 bytes that Enc.Unmarshal rejects.
+func Undecodable(n int) []byte {
+	out := make([]byte, n+2)
+	out[0], out[1] = 0xFE, 0xFE
+	return out
+}
+
 // Enc is a drpc.Encoding over *[]byte: the message is the byte slice itself.
 type Enc struct{}
 
@@ -124,6 +134,9 @@ func (Enc) Unmarshal(buf []byte, msg drpc.Message) error {
 	m, ok := msg.(*[]byte)
 	if !ok {
 		return fmt.Errorf("payload.Enc: unsupported message %T", msg)
+	}
+	if len(buf) >= 2 && buf[0] == 0xFE && buf[1] == 0xFE {
+		return ErrUndecodable // a message the receiving side's decoder rejects
 	}
 	*m = append((*m)[:0], buf...)
 	return nil
